@@ -20,6 +20,8 @@ def payload_hex(tag, psize):
 
 
 def gen(rng, focus, k=None, maxops=40):
+    if k is not None and k % 10 == 9:
+        return gen_bad_key(rng, focus, k)
     enc_on = rng.random() < 0.8
     k1 = key(rng)
     cfg = gen_storage.draw_cfg(rng, k, {"dedup": 0, "enc": k1 if enc_on else "-"})
@@ -82,4 +84,30 @@ def gen(rng, focus, k=None, maxops=40):
         emit(f"scan-str {tname}")
         emit(f"scan-str {uname}")
     emit(f"scan-str {pw}")
+    return cfg, ops
+
+
+def gen_bad_key(rng, focus, k=None):
+    """Encryption switched on with a key that cannot be used (16 bytes, not base64, 31 bytes): the server must
+    not run with encryption silently off. Either it refuses to start (then the history has nothing to judge) or,
+    if it serves requests, nothing may reach the files in clear."""
+    import base64
+    bad = rng.choice([base64.b64encode(bytes(range(16))).decode(), "not*base64*at*all",
+                      base64.b64encode(bytes(range(31))).decode(), base64.b64encode(bytes(range(33))).decode()])
+    cfg = gen_storage.draw_cfg(rng, k, {"dedup": 0, "enc": bad, "save": 1})
+    sname, tname = marker(rng, "s-"), marker(rng, "t-")
+    ops = ["conn 0 tcp", "login 0 iggy iggy", "clock 1000000", f"create-stream 0 1 {sname}",
+           f"create-topic 0 #1 1 {tname} 1 never unlimited -", "clock 1000010"]
+    tags = []
+    for i in range(rng.randint(1, 4)):
+        tag = 5000 + i
+        psize = rng.choice([40, 120, 333])
+        tags.append((tag, psize))
+        ops.append(f"send 0 #1 #1 pid:1 {i + 1}:{psize}:{tag}:0")
+    ops.append("flush 0 #1 #1 1 1")
+    ops.append("poll 0 #1 #1 1 c:#1 offset:0 100 0")
+    for tag, psize in tags:
+        ops.append(f"scan {payload_hex(tag, psize)}")
+    ops.append(f"scan-str {sname}")
+    ops.append(f"scan-str {tname}")
     return cfg, ops
